@@ -30,9 +30,13 @@ class Violation:
     case: dict  # JSON-able, sufficient for --replay
     detail: str = ""
     features: dict = field(default_factory=dict)  # structural predicates for known-finding signatures
+    job: object = None  # the job that produced it (set by the runner): unit of replay for history-dependent failures
 
     def to_json(self) -> dict:
-        return {"kind": self.kind, "cluster": self.cluster, "case": self.case, "detail": self.detail, "features": self.features}
+        d = {"kind": self.kind, "cluster": self.cluster, "case": self.case, "detail": self.detail, "features": self.features}
+        if self.job is not None:
+            d["job"] = self.job
+        return d
 
 
 @dataclass
@@ -96,7 +100,16 @@ def _run_job(args):
     mod = sys.modules.get(modname) or __import__(modname, fromlist=["x"])
     try:
         with watchdog(JOB_TIMEOUT):
-            return mod.run(job)
+            r = mod.run(job)
+        if len(r.violations) > 400:
+            r.extra["violations_not_transferred"] += len(r.violations) - 400
+            del r.violations[400:]
+        seen_clusters = set()
+        for v in r.violations:
+            if v.cluster not in seen_clusters:  # one copy of the job per cluster is enough
+                seen_clusters.add(v.cluster)
+                v.job = job
+        return r
     except CaseTimeout:
         r = JobResult()
         r.extra["job_timeouts"] += 1
@@ -222,7 +235,7 @@ def run_check(mod, tier: str, seed: int) -> int:
         if reported >= MAX_REPORT:
             break
         path = _replay_file(pid, v)
-        if os.environ.get("VERIF_NO_CONFIRM"):
+        if os.environ.get("VERIF_NO_CONFIRM", "0") not in ("", "0"):
             ok, why = True, ""
         else:
             ok, why = confirm(pid, path)
